@@ -10,15 +10,15 @@ RUN_MODULE = "Run.Run_C09"
 GEN_FILES = ["Gen_types.v", "Gen_lint.v"]
 RULE = ("unroll: random lint-clean DAGs (1..4 inputs, 1..6 gates of all eight types, constants) x injective pairings of outputs to inputs "
         "with 0..3 state bits (random ones, and ALL pairings of small circuits), state outputs that are themselves primary inputs, "
-        "n in 1..4 (quick) / 1..6 (thorough), free inputs of the result <= 10 so that all input sequences are enumerated; "
+        "n in 1..4 (quick) / 1..6 (thorough), free inputs of the result <= 8 (quick) / 10 (thorough) so that all input sequences are enumerated; "
         "sequential_unroll: DAGs with 1..3 spliced flops of one blackbox type (pins clk,d[,rst] -> q[,qn]), state feedback, unloaded Q, "
         "x all of add_flop_outputs, initial_values (None,'0','1','x',dict), remove_unloaded, ignore_pins; plus rejected calls (n=0, "
         "unknown state io, blackboxes) and name-stress circuits; non-trivial = at least one gate and n >= 1; distinct = canonical input hash")
 EXPLANATION = ("models of unroll / sequential_unroll through the API model compared with the returned graph and io map; oracle simulates the "
                "sequential machine step by step for every valuation of the free inputs of the unrolled circuit")
 SHARD = 12
-HASHSEEDS = {"quick": [0, 1], "thorough": [0, 1, 2]}
-MAX_FREE = 10
+HASHSEEDS = {"quick": [0, 1], "thorough": [0, 1]}
+MAX_FREE = {"quick": 8, "thorough": 10}
 
 
 def base(rng, n_in, n_gate, p_const=0.12):
@@ -33,7 +33,7 @@ def outs_ins(d):
 
 def pick_n(rng, tier, s, others):
     hi = 4 if tier == "quick" else 6
-    ns = [n for n in range(1, hi + 1) if s + n * others <= MAX_FREE]
+    ns = [n for n in range(1, hi + 1) if s + n * others <= MAX_FREE[tier]]
     return rng.choice(ns) if ns else 1
 
 
@@ -154,7 +154,7 @@ def gen_seq(rng, tier):
         iv = {b: rng.choice(["0", "1", "1", "0", "x"]) for b in rng.sample(insts, rng.randint(1, len(insts)))}
     ins = [n[0] for n in d["nodes"] if n[1] == "input"]
     hi = 3 if tier == "quick" else 4
-    ns = [n for n in range(1, hi + 1) if k + n * len(ins) <= MAX_FREE]
+    ns = [n for n in range(1, hi + 1) if k + n * len(ins) <= MAX_FREE[tier]]
     n = rng.choice(ns) if ns else 1
     return {"fn": "sequential_unroll", "circuit": lib.shuffle_nodes(rng, d), "n": n, "d": "d", "q": "q", "ign": ign,
             "afo": rng.random() < 0.5, "iv": iv, "ru": rng.random() < 0.6, "prefix": "cg_unroll", "kind": kind}
@@ -175,7 +175,7 @@ def gen_seq_flags(rng, tier):
 
 
 def generate(rng, tier):
-    nu, na, ns, nf = (90, 3, 60, 2) if tier == "quick" else (800, 25, 500, 15)
+    nu, na, ns, nf = (90, 3, 60, 2) if tier == "quick" else (500, 15, 300, 10)
     out = [gen_unroll(rng, tier) for _ in range(nu)]
     for _ in range(na):
         out += gen_all_pairings(rng, tier)
